@@ -396,6 +396,13 @@ def r19_8(ctx, rep, roles, meths):
     eng, rows = table(fx, co["id"])
     hb, gc, ev = roles.update_self_heartbeat["id"], roles.chitchat_gc_keys["id"], roles.update_nodes_liveness["id"]
     gossip = meths["gossip"]["id"]
+    # the send phase may live in a private async helper introduced by a refactoring (a Server method the pinned tree does not
+    # have, that calls gossip): the round then calls the helper where it called gossip, and the target obligations are checked on
+    # the helper's own body
+    cgx = callgraph.CallGraph(fx)
+    helpers = [h for h in getattr(fx, "new_helpers", ()) if fx.fns[h].get("impl_self") == SERVER and fx.fns[h].get("is_async")
+               and gossip in cgx.reachable([h])]
+    send_ids = {gossip} | set(helpers)
     rets = [x for x in rows if x.exit == "return"]
     backs = [x for x in rows if x.exit == "backedge"]
     others = [x for x in rows if x.exit not in ("return", "backedge")]
@@ -405,29 +412,51 @@ def r19_8(ctx, rep, roles, meths):
     for row in rets:
         n += 1
         names = [e[1] for e in row.calls()]
-        idx = {k: [i for i, x in enumerate(names) if x == k] for k in (hb, gc, ev, gossip)}
+        idx = {k: [i for i, x in enumerate(names) if x == k] for k in (hb, gc, ev)}
+        sends = [i for i, x in enumerate(names) if x in send_ids]
         once = all(len(idx[k]) == 1 for k in (hb, gc, ev))
-        order = once and all(idx[hb][0] < g and idx[gc][0] < g for g in idx[gossip]) and all(g < idx[ev][0] for g in idx[gossip])
+        order = once and all(idx[hb][0] < g and idx[gc][0] < g for g in sends) and all(g < idx[ev][0] for g in sends)
         rep.obligation(once and order, "C19/R19.8/round-incomplete", "a returning path of the round calls heartbeat x%d, gc x%d, liveness x%d (order ok=%s)" % (
             len(idx[hb]), len(idx[gc]), len(idx[ev]), order), where(co, row.site[1]), sample="heartbeat, gc < sends < update_nodes_liveness, once each")
-        # the loop over the selected targets ran to exhaustion; each optional target (dead / seed) that was picked is attempted
-        exhausted = any(c[0] == "variant" and c[1][0] == "call" and c[1][1].endswith("Iterator>::next") and c[2] == "None" and c[3] for c in row.cond)
-        picked = [c for c in row.cond if c[0] == "variant" and c[3] and c[2] == "Some" and any(
-            s[0] == "call" and s[1].endswith("select_nodes_for_gossip") for s in T.subterms(c[1]))]
-        rep.obligation(exhausted and len(idx[gossip]) == len(picked), "C19/R19.8/target-skipped",
-                       "a returning path leaves the target loop early or attempts %d of %d picked optional targets" % (len(idx[gossip]), len(picked)),
-                       where(co, row.site[1]), sample="loop exhausted; every picked dead / seed target attempted")
-    nb = 0
-    for row in backs:
-        g = [e for e in row.calls() if e[1] == gossip]
-        in_target_loop = any(c[0] == "variant" and c[1][0] == "call" and c[1][1].endswith("Iterator>::next") and c[2] == "Some" and c[3] for c in row.cond)
-        if in_target_loop:
-            nb += 1
-            rep.obligation(len(g) == 1, "C19/R19.8/target-loop", "a target-loop iteration makes %d gossip calls" % len(g), where(co, row.site[1]),
-                           sample="one attempt per selected target, then next target whatever the result")
-    rep.floor("returning-paths", n, 4)
+        if helpers:
+            rep.obligation(any(names[i] in helpers for i in sends), "C19/R19.8/target-skipped", "a returning path of the round does not enter the send phase",
+                           where(co, row.site[1]), sample="the send phase (helper) is entered on every returning path")
+    # the body that contains the sends
+    phase = [(co, rows)]
+    if helpers:
+        phase = []
+        for h in helpers:
+            hco = coroutine_of(fx, h)
+            phase.append((hco, table(fx, hco["id"])[1]))
+    nb = n_ret = 0
+
+    def is_iter_or_await(t):
+        while t[0] == "proj":
+            t = t[1]
+        return t[0] == "call" and (t[1].endswith("::next") or t[1].endswith("::poll") or "lock" in t[1] or "{closure#0}" in t[1])
+    for pco, prows in phase:
+        for row in prows:
+            if row.exit == "return":
+                n_ret += 1
+                gs = [e for e in row.calls() if e[1] == gossip]
+                # the loop over the selected targets ran to exhaustion; each optional target (dead / seed) that was picked is attempted
+                exhausted = any(c[0] == "variant" and c[1][0] == "call" and c[1][1].endswith("Iterator>::next") and c[2] == "None" and c[3] for c in row.cond)
+                picked = [c for c in row.cond if c[0] == "variant" and c[3] and c[2] == "Some" and not is_iter_or_await(c[1])]
+                rep.obligation(exhausted and len(gs) == len(picked), "C19/R19.8/target-skipped",
+                               "a returning path leaves the target loop early or attempts %d of %d picked optional targets" % (len(gs), len(picked)),
+                               where(pco, row.site[1]), sample="loop exhausted; every picked dead / seed target attempted")
+            elif row.exit == "backedge":
+                g = [e for e in row.calls() if e[1] == gossip]
+                in_target_loop = any(c[0] == "variant" and c[1][0] == "call" and c[1][1].endswith("Iterator>::next") and c[2] == "Some" and c[3] for c in row.cond)
+                if in_target_loop:
+                    nb += 1
+                    rep.obligation(len(g) == 1, "C19/R19.8/target-loop", "a target-loop iteration makes %d gossip calls" % len(g), where(pco, row.site[1]),
+                                   sample="one attempt per selected target, then next target whatever the result")
+            else:
+                rep.obligation(False, "C19/R19.8/other-exit", "the send phase has a path that neither returns nor loops (%s)" % row.exit, where(pco, row.site[1]))
+    rep.floor("returning-paths", n + n_ret, 4)
     rep.floor("target-loop-paths", nb, 2)
-    rep.instance(n + nb)
+    rep.instance(n + n_ret + nb)
 
 
 def r19_9(ctx, rep, roles, meths):
